@@ -724,6 +724,12 @@ class C20(Prop):
       if tree is None:
         return None
       wire_opts = {k: o[k] for k in MODEL_OPTS}
+      for f in ('highlight', 'lowlight'):
+        wire_opts[f] = [] if o[f] is None else [[key_wire(k) for k in q] for q in o[f]['pred']['paths']]
+      for f in ('key_color', 'summary_color'):
+        wire_opts[f] = None if o[f] is None else [None if x is None else cps(x) for x in o[f]]
+      wire_opts['title'] = None if o['title'] is None else cps(o['title'])
+      wire_opts['css_classes'] = [cps(x) for x in (o['css_classes'] or [])]
       wire_opts['uncollapse'] = [[key_wire(k) for k in p] for p in o['uncollapse']]
       wire_opts['name'] = None if o['name'] is None else key_wire(o['name'])
       for f in ('include_keys', 'exclude_keys'):
@@ -733,11 +739,17 @@ class C20(Prop):
 
   @staticmethod
   def modelled(o):
-    """Is this option record inside the Lean model? (Callable options, child_config, extra_flags
-    and debug are checked by the oracle only.)"""
+    """Is this option record inside the Lean model? Callable options other than path-set
+    highlight / lowlight filters, child_config, extra_flags and debug are checked by the oracle only."""
     o = full_opts(o)
-    return (all(o[k] == DEFAULT_OPTS[k] for k in DEFAULT_OPTS if k not in MODEL_OPTS)
-            and not any(is_pred(o[k]) for k in MODEL_OPTS))
+    if o['child_config'] is not None or o['extra_flags'] is not None or o['debug']:
+      return False
+    if any(is_pred(o[k]) for k in MODEL_OPTS + ('key_color', 'summary_color')):
+      return False
+    for f in ('highlight', 'lowlight'):
+      if o[f] is not None and set(o[f]['pred']) != {'paths'}:
+        return False
+    return True
 
   def _model_tree(self, case):
     """The model's input tree: shape of the value + the strings utils.format yields for it
